@@ -14,7 +14,8 @@ AST (python tuples)
               ("call", name, [args]) ("selfcall", [args]) ("list", [elems]) ("index", e, int | varname)
               ("field", obj, name) ("mcall", obj, method, [args]) ("is", a, b)        class instances: ("call", ClassName, [ctor args])
   statement : ("class", name, [(field, type)], [(ctor param, type)], ctor body, [(method, [(param, type)], rettype|None, body)])
-              ("setfield", obj, field, expr)
+              ("setfield", obj, field, expr)  ("setindex", list, int | varname, expr)  ("opindex", list, int | varname, op, expr)
+              list built-ins: ("mcall", list, "len" | "push" | "remove" | "clear" | "reverse" | "clone" | "join", [args])
 
 Semantics (what the language prescribes; sources: README, compiler/src/tests/*.rs):
   * statements run in order; a function call evaluates its arguments left to right, then runs the body in a fresh scope;
@@ -27,7 +28,7 @@ Semantics (what the language prescribes; sources: README, compiler/src/tests/*.r
   * `&&` / `||` evaluate their right operand only when the left one does not decide; `(x) or y` evaluates y only when x is nil;
   * a failing assert, zero divisor, overflow, `get nil`, index out of range stops the program there with a failure status."""
 import z3
-from core import (Fail, Unsupported, OutOfBound, NIL, ListRef, Cell, Fn, Obj, is_sym, is_int, is_bool, arith, compare, negate, logic_not,
+from core import (Fail, Unsupported, OutOfBound, NIL, ListRef, Cell, Fn, Obj, list_builtin, LIST_BUILTINS, is_sym, is_int, is_bool, arith, compare, negate, logic_not,
                   logic, equals)
 
 
@@ -183,6 +184,15 @@ class Interp:
             cv = ClassV(name, fields, cparams, cbody, {m[0]: m for m in methods}, env)
             env[name] = Cell(cv)          # a class can name itself
             self.assign(name, cv, scopes)
+        elif k in ("setindex", "opindex"):
+            # `xs[i] = e` / `xs[i] += e`: the value is evaluated before the target list and index
+            v = self.expr(st[-1], scopes, outer, me)
+            lst = self.expr(st[1], scopes, outer, me)
+            idx = st[2] if isinstance(st[2], int) else self.lookup(st[2], scopes, outer).v
+            if not isinstance(lst, ListRef):
+                raise Unsupported("index assignment into a non-list")
+            idx = self.pick_index(lst, idx)
+            lst.items[idx] = v if k == "setindex" else arith(o, st[3], lst.items[idx], v)
         elif k == "setfield":
             # `obj.f = e`: the value is evaluated before the target object
             v = self.expr(st[3], scopes, outer, me)
@@ -198,6 +208,21 @@ class Interp:
             self.assign(name, Closure(name, params, body, env), scopes)
         else:
             raise Unsupported("statement " + k)
+
+    def pick_index(self, lst, idx):
+        ln = len(lst.items)
+        if is_sym(idx):
+            chosen = None
+            for j in range(ln):
+                if self.o.branch(idx == z3.BitVecVal(j, 32)):
+                    chosen = j
+                    break
+            if chosen is None:
+                raise Fail("index")
+            idx = chosen
+        if idx < 0 or idx >= ln:
+            raise Fail("index")
+        return idx
 
     def field_cell(self, ob, name):
         if ob is NIL:
@@ -282,6 +307,8 @@ class Interp:
             args = [self.expr(a, scopes, outer, me) for a in e[3]]
             if ob is NIL:
                 raise Fail("lookup", "nil object")
+            if isinstance(ob, ListRef) and e[2] in LIST_BUILTINS:
+                return list_builtin(o, e[2], ob, args)
             if not isinstance(ob, Obj):
                 raise Unsupported("method call on a non-object")
             return self.method(ob, ob.vars["$class"].v, e[2], args)
@@ -448,6 +475,10 @@ def rstmts(stmts, ind, inputs=None):
             out.append(t + "}")
         elif k == "setfield":
             out.append("%s%s.%s = %s" % (t, rrecv(st[1], inputs), st[2], rexpr(st[3], inputs)))
+        elif k == "setindex":
+            out.append("%s%s[%s] = %s" % (t, rexpr(st[1], inputs), st[2], rexpr(st[3], inputs)))
+        elif k == "opindex":
+            out.append("%s%s[%s] %s= %s" % (t, rexpr(st[1], inputs), st[2], st[3], rexpr(st[4], inputs)))
         elif k == "class":
             _, name, fields, cparams, cbody, methods = st
             out.append("%sclass %s {" % (t, name))
